@@ -9,7 +9,7 @@ HOOK_COMMITS = subprocess.run(["git", "-C", "/repo", "log", "--format=%H", "--gr
 # id -> (technique, level text, level note, design ref)
 CHECKS = {
  "C04": ("exhaustive enumeration of all canonical combinator DAGs up to a node bound x every topological construction order, each run through the real ConstructNode API in a fresh context and judged by a textbook unifier",
-         "All DAGs with <=4 (thorough 5; 6 over a reduced alphabet) nodes over an 18-symbol alphabet (well-typed or not, every sharing pattern), as program and as expression, in every linear extension of the dependency order; every Core and Elements jet as a typed leaf in all DAGs of <=3 nodes; pair-doubling macro-cases (up to 100 doublings) for termination, memory and displayability of errors. Verdict, every node's arrow and order-independence are compared on every case.",
+         "All DAGs with <=5 (thorough 6; 7 over a reduced 8-symbol alphabet) nodes over an 18-symbol alphabet (well-typed or not, every sharing pattern), as program and as expression, in every linear extension of the dependency order; every Core and Elements jet as a typed leaf in all DAGs of <=3 nodes; pair-doubling macro-cases (up to 100 doublings) for termination, memory and displayability of errors. Verdict, every node's arrow and order-independence are compared on every case.",
          "Trusts the 60-line Robinson unifier and the typing rules as transcribed; DAGs above the node bound are only covered by the doubling macro-cases.", "5/C04"),
  "C10": ("exhaustive enumeration of (type, value, production history) triples and prune targets, judged by reference type/value trees",
          "Every type with <=3/4 constructors plus word/option/buffer types, every value (corner values above 4096), 17 production histories including sub-value extraction at every bit offset from dirty buffers, every prune target with <=2/3 constructors and every two-step chain. Complete within those bounds.",
@@ -20,6 +20,9 @@ CHECKS = {
  "C13": ("explicit-state exploration of the real BitIter (state = full internal state) over every 2/3-byte stream, plus exhaustive enumeration of writer op sequences, naturals, bit strings and windows against a Vec<bool> model",
          "Every reachable reader state over every byte string of the bound length is visited and an invariant plus model agreement is evaluated on every transition; all writer histories to depth 3/4, all naturals to 2^16/2^22 and around every power of two, all windows over <=3-byte slices. Exhaustive within those bounds, so any cursor/offset/refill bug that manifests on a stream of <=3 bytes is found.",
          "Trusts the 80-line Vec<bool> reference model and the recursive definition of the natural code; streams longer than 3 bytes are not explored.", "5/C13"),
+ "C18": ("exhaustive enumeration of all pointer-DAG shapes up to a node bound x sharing policies (no sharing, pointer sharing, every congruence as a class-sharing tracker), iterators stepped against a recursive reference; real Commit/Redeem DAGs with the real MaxSharing",
+         "All canonical DAG shapes with <=6/7 nodes and out-degree <=2 through a harness type implementing the public DagLike, under NoSharing, InternalSharing and every congruence partition (<=5/6 nodes) as an abstract identity-hash sharing; post-order, right-to-left, pre-order, verbose pre-order (counters, depth, parent, depth limit) and is_shared_as compared item by item. Real CommitNode/RedeemNode DAGs of <=4/5 nodes with MaxSharing keyed on the actual identity hash.",
+         "Trusts the 25-line recursive reference post-order. Larger shapes are not explored.", "5/C18"),
  "C19": ("exhaustive enumeration of (witness stack shape, cost) pairs around every compact-size boundary, judged by brute-force search for the shortest sufficient annex",
          "All stacks with item counts and last-item sizes straddling 252/253 and 65535/65536, all costs whose deficit is within +-3/6 of each region edge and every deficit 0..600/70000 with +-1 milliweight rounding variants. Complete over that grid.",
          "Trusts the compact-size definition re-implemented in the oracle; costs between the grid points are not enumerated.", "5/C19"),
